@@ -170,6 +170,19 @@ def diag_labels(ctx):
                 if marker is not None and units.nm(marker).upper() not in re.split(r'[^A-Za-z0-9_]+', slices[0][2].upper()):
                     ctx.violations.append({'stream': 'labels', 'case': show, 'impl': d, 'model': None,
                                            'what': f'the {code} diagnostic about the name {units.nm(marker)} labels the text `{slices[0][2]}`, which does not contain it'})
+                if c['fault'] in ('struct-element-thrice', 'enum-value-thrice') and all(x is not None for x in slices):
+                    # a name used three times: where a diagnostic labels two uses of it, one of them is the first of the three
+                    # (the fresh name occurs nowhere else in the set)
+                    name = units.nm(7991 if c['fault'] == 'struct-element-thrice' else 7990)
+                    on_name = [x for x in slices if x[2].upper() == name.upper()]   # (other labels may name the declaration itself)
+                    if on_name and len({x[0] for x in on_name}) == 1:
+                        fi = on_name[0][0]
+                        first = re.search(r'(?<![A-Za-z0-9_])' + re.escape(name) + r'(?![A-Za-z0-9_])', c['texts'][fi], re.I)
+                        first_off = len(c['texts'][fi][:first.start()].encode('utf-8')) if first else None
+                        if len(on_name) >= 2 and first_off is not None and min(x[1] for x in on_name) != first_off:
+                            ctx.violations.append({'stream': 'labels', 'case': show, 'impl': d, 'model': None,
+                                                   'what': f'the {code} diagnostic about the name {name}, used three times, labels the uses at bytes {sorted(x[1] for x in on_name)}: '
+                                                           f'none of them is the first use (byte {first_off})'})
                 if code == 'P0018' and len(slices) >= 2 and slices[1] is not None:
                     # the secondary label names the constant global: it lies in a VAR_GLOBAL CONSTANT block
                     f2, a2, t2 = slices[1]
